@@ -79,6 +79,34 @@ def tpl_two(size, n1, n2, r1, t, other=0, _twin=False):
         w.close(code)
 
 
+def tpl_queued(size, n1, n2, n3, k, r1, _twin=False):
+    """Three requests (separate groups) compete for a small pool, so that spawners of different groups are queued for
+    room; the k-th group is cancelled (possibly one that has not started anything), then an arbitrary worker ends."""
+    w = World("c01.queued")
+    code = 0
+    try:
+        pool = _mkpool(size, False, w)
+        it = Interp(w, pool, cbkind=1)
+        idle_check = _install(w, pool, size)
+        try:
+            it.apply(n1); w.settle()
+            it.apply(n2); w.settle()
+            it.apply(n3); w.settle(); idle_check()
+            it.cancel_group(k)
+            w.settle(); idle_check()
+            it.release(r1)
+            w.settle(); idle_check()
+            w.drain(); idle_check()
+        except Excluded as e:
+            w.excluded = str(e)
+        code = w.err
+        if _twin and not code and not w.excluded and len(w.W) >= 2 and any(r["cancelled"] for r in it.reqs) and w.peak >= 1:
+            code = 77
+        return code
+    finally:
+        w.close(code)
+
+
 def tpl_lockcycle(size, simple, n1, t, r1, n2, _twin=False):
     """A request, then lock() t iterations later (the spawner may still be about to ask for room: it is refused),
     an arbitrary worker released, unlock(), and a second request of n2 tasks: the bound holds through the refusal and after it."""
@@ -201,6 +229,10 @@ def families(tier):
         pre=["size >= 0", "0 <= x1 < 4", "a2 >= -1", "0 <= x3 < %d" % na, "a3 >= -1"] + ([] if thorough else ["a2 <= 2", "a3 <= 2", "size <= 4"]),
         parts=parts_product(x1=range(4), x3=range(na)),
         twin_pre=["x1 == 0"], twin_args=[2, 0, 0, na - 1, 0]))
+    fams.append(Family(
+        name="queued", fn="tpl_queued", params=["size", "n1", "n2", "n3", "k", "r1"],
+        pre=["size >= 0", "1 <= n1 <= 3", "1 <= n2 <= 3", "1 <= n3 <= 2", "0 <= k <= 2", "r1 >= 0"] + ([] if thorough else ["size <= 3", "r1 <= 4"]),
+        parts=parts_product(n1=(1, 2, 3), k=(0, 1, 2)), twin_pre=["n1 == 2", "k == 2"], twin_args=[2, 2, 2, 1, 2, 0]))
     fams.append(Family(
         name="lockcycle", fn="tpl_lockcycle", params=["size", "simple", "n1", "t", "r1", "n2"],
         pre=["size >= -1", "0 <= simple <= 1", "1 <= n1 <= 3", "t >= 0", "r1 >= 0", "0 <= n2 <= 4"] + ([] if thorough else ["size <= 3", "r1 <= 3"]),
